@@ -34,7 +34,8 @@ TRIVIAL_EXT = [
     r'^std_try_to_lock_t$', r'^std_defer_lock_t$', r'^std_adopt_lock_t$', r'^vf_msec$',
     r'^vf_tpoint$', r'^std_true_type$', r'^std_false_type$', r'^std_integral_constant_.*$',
     r'^std_nothrow_t$', r'^std_allocator_.*$', r'^std_less_.*$', r'^std_chrono_.*$',
-    r'^std_allocator_arg_t$', r'^std_default_delete_.*$',
+    r'^std_allocator_arg_t$', r'^std_default_delete_.*$', r'^std_Rb_tree_(const_)?iterator_.*$', r'^gnu_cxx_normal_iterator.*$',
+    r'^std_initializer_list_.*$',
 ]
 # external class types without a destructor worth calling (atomics, iterators …)
 NODTOR_EXT = TRIVIAL_EXT + [
@@ -338,6 +339,15 @@ class Lowering:
             t = x.get('type')
             if isinstance(t, dict) and '<dependent type>' in (t.get('qualType') or ''):
                 return True
+            if k == 'LambdaExpr':
+                # the trailing CompoundStmt repeats the body (for a generic lambda: the dependent pattern);
+                # the bodies that count are the closure record's operator() instantiations
+                stack.extend(c for c in kids(x) if c.get('kind') != 'CompoundStmt')
+                continue
+            if k == 'FunctionTemplateDecl':
+                # generic lambda / member template nested in this function: only its instantiations count
+                stack.extend(c for c in kids(x) if any(y.get('kind') == 'TemplateArgument' for y in kids(c)))
+                continue
             stack.extend(kids(x))
         return False
 
@@ -544,7 +554,7 @@ class Lowering:
         r = self.rec_lookup(base)
         if r is not None:
             return 'struct ' + r.cname + '*' * n
-        if '(' in base and 'lambda at' not in base:
+        if toplevel_paren(base) and 'lambda at' not in base:
             raise Unsupported('function type ' + q)
         return 'struct ' + cname(base) + '*' * n
 
@@ -576,6 +586,18 @@ class Lowering:
         q = self.unalias(q)
         base, n = split(q)
         return self.rec_lookup(base) is None and matches(TRIVIAL_EXT, cname(base))
+
+
+def toplevel_paren(s):
+    d = 0
+    for ch in s:
+        if ch == '<':
+            d += 1
+        elif ch == '>':
+            d -= 1
+        elif ch == '(' and d == 0:
+            return True
+    return False
 
 
 def hash_str(s):
